@@ -18,8 +18,8 @@ type Grammar struct {
 	MaxLen      int
 	NamesElided bool
 	Positions   bool
-	HasNegLook  bool // contains ~ or lookahead groups (excluded from C13)
-	Spaced      bool // inputs are token strings re-spaced with elided runs (C10/C11 families)
+	HasNegLook  bool     // contains ~ or lookahead groups (excluded from C13)
+	Spaced      bool     // inputs are token strings re-spaced with elided runs (C10/C11 families)
 	Fills       []string // what may be put into each gap (start, between tokens, end)
 	SpacedLen   int      // token strings up to this length get every fill assignment
 	Lookaheads  []int    // nil = all six
@@ -228,8 +228,8 @@ func hasNegLook(n *g.Node) bool {
 
 // ---------- leaf sets
 
-func lit(s string) func() *g.Node  { return func() *g.Node { return g.Lit(s) } }
-func ref(t string) func() *g.Node  { return func() *g.Node { return g.Ref(t) } }
+func lit(s string) func() *g.Node { return func() *g.Node { return g.Lit(s) } }
+func ref(t string) func() *g.Node { return func() *g.Node { return g.Ref(t) } }
 func capOf(a func() *g.Node) func() *g.Node {
 	return func() *g.Node { return capMark(a()) }
 }
@@ -251,10 +251,14 @@ func coreLeavesReduced() []func() *g.Node {
 // fixed sub-productions used as @@ leaves (fresh instances per grammar so fields are independent)
 func subProds() []func() *g.Prod {
 	return []func() *g.Prod{
-		func() *g.Prod { return assign("S1", capMark(g.Ref("Ident")), schemeOwn) },                                                     // completes after 1 token
-		func() *g.Prod { return assign("S2", g.Seq(capMark(g.Ref("Ident")), g.Lit("b")), schemeOwn) },                                   // fails part-way unless b follows
-		func() *g.Prod { return assign("S3", g.Seq(g.Lit("a"), g.Grp(capMark(g.Ref("Ident")), '*')), schemeShared) },                     // a then greedy
-		func() *g.Prod { return assign("S4", g.Seq(capMark(g.Ref("Ident")), g.Grp(g.Seq(g.Lit("b"), capMark(g.Lit("b"))), '?')), schemeOwn) }, // inner optional
+		func() *g.Prod { return assign("S1", capMark(g.Ref("Ident")), schemeOwn) },                    // completes after 1 token
+		func() *g.Prod { return assign("S2", g.Seq(capMark(g.Ref("Ident")), g.Lit("b")), schemeOwn) }, // fails part-way unless b follows
+		func() *g.Prod {
+			return assign("S3", g.Seq(g.Lit("a"), g.Grp(capMark(g.Ref("Ident")), '*')), schemeShared)
+		}, // a then greedy
+		func() *g.Prod {
+			return assign("S4", g.Seq(capMark(g.Ref("Ident")), g.Grp(g.Seq(g.Lit("b"), capMark(g.Lit("b"))), '?')), schemeOwn)
+		}, // inner optional
 		func() *g.Prod {
 			inner := assign("S5i", g.Seq(capMark(g.Ref("Ident")), g.Lit("b")), schemeOwn)
 			return assign("S5", g.Seq(capMark(g.Lit("a")), g.Sub(-1, inner)), schemeOwn) // depth 2, inner fails part-way
